@@ -57,6 +57,7 @@ type Case struct {
 	Meta      bool   `json:"meta"`       // the handler sets header and trailer metadata
 	RawReply  bool   `json:"raw_reply"`  // unary/server shapes: the method replies with google.api.HttpBody (raw bytes on HTTP)
 	Encoding  string `json:"encoding"`    // gRPC / gRPC-web: grpc-encoding of the request ("" | identity | gzip)
+	BadQuery  string `json:"bad_query"`   // http / httpget: a query string the method can not accept (the RPC is refused before the handler)
 	StrayBody string `json:"stray_body"` // httpget: body sent although the binding maps none ("" = none; a leading "~" = unknown length)
 }
 
@@ -399,10 +400,10 @@ func execute(c Case, unaryInt, streamInt, withStats bool, behaviour string) (run
 		if streamingClient {
 			cl = -1
 		}
-		req = drive.Request("POST", pOf(c), "", hdr, bytes.NewReader(body.Bytes()), cl)
+		req = drive.Request("POST", pOf(c), c.BadQuery, hdr, bytes.NewReader(body.Bytes()), cl)
 	case "httpget":
 		if c.StrayBody == "" {
-			req = drive.Request("GET", strings.TrimSuffix(pOf(c), "/")+"/abc", "", hdr, nil, 0)
+			req = drive.Request("GET", strings.TrimSuffix(pOf(c), "/")+"/abc", c.BadQuery, hdr, nil, 0)
 		} else {
 			// the binding maps no body: the message is still built from the URL alone
 			hdr.Set("Content-Type", "application/json")
@@ -411,7 +412,7 @@ func execute(c Case, unaryInt, streamInt, withStats bool, behaviour string) (run
 			if b != c.StrayBody {
 				cl = -1
 			}
-			req = drive.Request("GET", strings.TrimSuffix(pOf(c), "/")+"/abc", "", hdr, strings.NewReader(b), cl)
+			req = drive.Request("GET", strings.TrimSuffix(pOf(c), "/")+"/abc", c.BadQuery, hdr, strings.NewReader(b), cl)
 		}
 	case "grpc", "grpcweb":
 		for _, n := range c.Sizes {
@@ -457,6 +458,33 @@ func Check(c Case) []evid.Violation {
 	got, il, hl, sr := execute(c, c.UnaryInt, c.StreamInt, c.Stats, c.Behaviour)
 	if got.panicked != "" {
 		return fail("transparency", "panic-with-options@"+strings.SplitN(got.panicked, ":", 2)[0], "options (unary=%v stream=%v stats=%v): %s", c.UnaryInt, c.StreamInt, c.Stats, got.panicked)
+	}
+	if c.BadQuery != "" && !hl.ran && !bhl.ran {
+		// refused before the handler: the options must not change the answer, and whatever the stats
+		// handler was told must still be a complete sequence (nothing at all, or Tag .. Begin .. End once)
+		if got != base {
+			return fail("transparency", "outcome-differs", "options changed the answer to a refused request:\n  off: %+v\n  on:  %+v", base, got)
+		}
+		if c.Stats {
+			if len(sr.events[0]) > 0 || sr.tags > 1 {
+				return fail("stats", "untagged-events", "refused request: %d untagged events, %d tags", len(sr.events[0]), sr.tags)
+			}
+			if ks := kinds(sr.events[1]); len(ks) > 0 {
+				nEnd, nBegin := 0, 0
+				for _, k := range ks {
+					if k == "End" {
+						nEnd++
+					}
+					if k == "Begin" {
+						nBegin++
+					}
+				}
+				if nBegin != nEnd || nEnd > 1 || (nEnd == 1 && ks[len(ks)-1] != "End") {
+					return fail("stats", "refused-request-sequence", "refused request (query %q): event sequence %v is not closed by exactly one End", c.BadQuery, ks)
+				}
+			}
+		}
+		return nil
 	}
 	if !hl.ran || !bhl.ran {
 		return fail("dispatch", "not-dispatched", "handler did not run (status %d %q)", got.status, got.body)
@@ -628,6 +656,9 @@ func genCase(t *rapid.T) Case {
 	c.Stats = rapid.Bool().Draw(t, "stats")
 	c.Behaviour = rapid.SampledFrom([]string{"pass", "pass", "replace-reply", "replace-error", "context"}).Draw(t, "behaviour")
 	c.Meta = rapid.Bool().Draw(t, "meta")
+	if (c.Transport == "http" || c.Transport == "httpget") && rapid.IntRange(0, 7).Draw(t, "badQuery") == 0 {
+		c.BadQuery = rapid.SampledFrom([]string{"nope=1", "f_int32=two", "f_string=a&nope.x=1", "r_leaf.count=1"}).Draw(t, "badQueryV")
+	}
 	if c.Transport == "grpc" || c.Transport == "grpcweb" {
 		c.Encoding = rapid.SampledFrom([]string{"", "", "identity", "gzip"}).Draw(t, "encoding")
 	}
@@ -658,6 +689,9 @@ func TestProp(t *testing.T) {
 		}
 		if c.Encoding != "" {
 			cl = append(cl, "grpc-encoding="+c.Encoding)
+		}
+		if c.BadQuery != "" {
+			cl = append(cl, "refused-by-query")
 		}
 		key := ""
 		if anyOpt && (c.Shape != "unary" || c.FailAfter >= 0 || small) {
